@@ -130,6 +130,18 @@ func disagreementClass(d Disagreement, p Pos, file []byte) string {
 			return "inside:" + tc
 		}
 	case "nowhere":
+		// The line may hold invalid UTF-8 between Start and the reported column:
+		// try the two usual counting conventions before giving up.
+		for _, x := range OffsetsOfLenient(file, p.Line, p.Column) {
+			if x > p.Start && x <= p.End {
+				switch tc := tokenClassAt(file, x); tc {
+				case "operator", "word-operator", "dot", "paren", "bracket", "brace":
+					return "inside:operator"
+				case "name", "number", "quote":
+					return "inside:operand"
+				}
+			}
+		}
 		return d.Kind + ":nowhere"
 	}
 	line, col, ok := LineCol(file, p.Start)
